@@ -43,7 +43,16 @@ def main():
         if not a.keep:
             shutil.rmtree(wd, ignore_errors=True)
     atexit.register(cleanup)
-    signal.signal(signal.SIGTERM, lambda *x: sys.exit(2))
+
+    def on_term(*x):
+        # kill every solver child (each runs in its own session), drop the scratch directory, leave at once: undecided
+        R.kill_all()
+        time.sleep(0.3)
+        R.kill_all()
+        cleanup()
+        os._exit(2)
+    signal.signal(signal.SIGTERM, on_term)
+    signal.signal(signal.SIGINT, on_term)
 
     t0 = time.time()
     known = json.load(open(os.path.join(HERE, 'known_findings.json')))
@@ -224,7 +233,7 @@ def main():
     lvl = P['level']
     samples = []
     for oid, e in list(obligations.items()):
-        if re.match(r'^C\d\d', oid) or 'loop' in oid or e['status'] != 'ok':
+        if re.search(r'(^|:)C\d\d\.', oid) or 'loop' in oid or e['status'] != 'ok':
             samples.append(dict(obligation=oid, status=e['status'], level=e['level'], backend=e['solver'], solver_s=e['time'], proof=e['proof']))
     samples = samples[:60]
     n_key_distinct = len([1 for oid in obligations if re.match(r'^C\d\d', oid) or re.search(r'postcondition|precondition|loop|decreases|assertion', oid)])
